@@ -347,7 +347,7 @@ Section Steps.
     destruct HR as [Hoff HI]. rewrite E0 in HI.
     destruct (update_reader_refines p POK K F (HK m Hm) h (si_bytes x) data script HI El) as (h' & r & Hu & HI' & Hr).
     rewrite Hu. cbn [bind].
-    destruct (snd (IoP.delivered (copy_fuel data script) data script)) as [|k|] eqn:Ed; [| |discriminate].
+    destruct (snd (delivered (copy_fuel data script) data script)) as [|k|] eqn:Ed; [| |discriminate].
     - injection Hs as <- <-. subst r. done_sim. apply Forall2_set_nth; [assumption|].
       split; cbn [si_off si_bytes]; [exact Hoff|]. rewrite E0. exact HI'.
     - injection Hs as <- <-. subst r. done_sim. apply Forall2_set_nth; [assumption|].
